@@ -2,6 +2,7 @@
 Logic between the emptiness of the report's collections and clauses (a)–(d) of C01.
 -/
 import ReuseVerif.Lemmas.Report
+import ReuseVerif.Spec.Lint
 
 namespace Model
 open Py Spec
@@ -150,5 +151,103 @@ theorem isCompliant_iff (r : Report) :
     r.isCompliant = true ↔ r.missing = [] ∧ r.unused = [] ∧ r.bad = [] ∧ r.deprecated = [] ∧
       r.noExt = [] ∧ r.noCopyright = [] ∧ r.noLicence = [] ∧ r.readErrors = [] := by
   simp [Report.isCompliant, List.isEmpty_iff, and_assoc]
+
+theorem plainNormal_append (a b : List Entry) : plainNormal (a ++ b) = plainNormal a ++ plainNormal b := by
+  simp [plainNormal]
+
+theorem mem_plainNormal_one {c : Cat} {l : List Text} {x : Entry} :
+    x ∈ plainNormal (one c l) ↔ ∃ p ∈ l, x ∈ (match c with
+      | .noBoth => [(Cat.noCopyright, p, []), (Cat.noLicence, p, [])]
+      | .noCopyrightOnly => [(Cat.noCopyright, p, [])]
+      | .noLicenceOnly => [(Cat.noLicence, p, [])]
+      | c => [(c, p, [])]) := by
+  unfold plainNormal one
+  rw [List.flatMap_map, List.mem_flatMap]
+  cases c <;> exact Iff.rfl
+
+theorem mem_plainNormal_two {c : Cat} {l : List (Text × Text)} {x : Entry} :
+    x ∈ plainNormal (two c l) ↔ ∃ p ∈ l, x ∈ (match c with
+      | .noBoth => [(Cat.noCopyright, p.1, p.2), (Cat.noLicence, p.1, p.2)]
+      | .noCopyrightOnly => [(Cat.noCopyright, p.1, p.2)]
+      | .noLicenceOnly => [(Cat.noLicence, p.1, p.2)]
+      | c => [(c, p.1, p.2)]) := by
+  unfold plainNormal two
+  rw [List.flatMap_map, List.mem_flatMap]
+  cases c <;> exact Iff.rfl
+
+theorem mem_missing {fd : Found} {fs : List CovFile} {k p : Text} :
+    (k, p) ∈ (generateOn fd fs).missing ↔
+      ∃ f ∈ fs, f.readable = true ∧ f.path = p ∧ k ∈ keysOf f ∧ idMissing fd.licenses k = true := by
+  simp only [generateOn, List.mem_flatMap, fileMissing, List.mem_map, List.mem_filter, Prod.mk.injEq]
+  constructor
+  · rintro ⟨f, ⟨hf, hr⟩, k', ⟨hk, hm⟩, rfl, rfl⟩; exact ⟨f, hf, hr, rfl, hk, hm⟩
+  · rintro ⟨f, hf, hr, rfl, hk, hm⟩; exact ⟨f, ⟨hf, hr⟩, k, ⟨hk, hm⟩, rfl, rfl⟩
+
+section subset
+variable {fd : Found} {fs : List CovFile} {F : List Text} {k p : Text}
+
+theorem subset_missing :
+    (k, p) ∈ (subsetReport fd fs F).missing ↔ (k, p) ∈ (generateOn fd fs).missing ∧ p ∈ F := by
+  simp only [subsetReport, mem_missing, List.mem_filter, List.contains_eq_mem, decide_eq_true_eq]
+  constructor
+  · rintro ⟨f, ⟨hf, hF⟩, hr, rfl, hk, hm⟩; exact ⟨⟨f, hf, hr, rfl, hk, hm⟩, hF⟩
+  · rintro ⟨⟨f, hf, hr, rfl, hk, hm⟩, hF⟩; exact ⟨f, ⟨hf, hF⟩, hr, rfl, hk, hm⟩
+
+theorem subset_readErrors :
+    p ∈ (subsetReport fd fs F).readErrors ↔ p ∈ (generateOn fd fs).readErrors ∧ p ∈ F := by
+  simp only [subsetReport, mem_readErrors, List.mem_filter, List.contains_eq_mem, decide_eq_true_eq]
+  constructor
+  · rintro ⟨f, ⟨hf, hF⟩, hr, rfl⟩; exact ⟨⟨f, hf, hr, rfl⟩, hF⟩
+  · rintro ⟨⟨f, hf, hr, rfl⟩, hF⟩; exact ⟨f, ⟨hf, hF⟩, hr, rfl⟩
+
+theorem subset_noCopyright :
+    p ∈ (subsetReport fd fs F).noCopyright ↔ p ∈ (generateOn fd fs).noCopyright ∧ p ∈ F := by
+  simp only [subsetReport, mem_noCopyright, List.mem_filter, List.contains_eq_mem, decide_eq_true_eq]
+  constructor
+  · rintro ⟨f, ⟨hf, hF⟩, hr, hc, rfl⟩; exact ⟨⟨f, hf, hr, hc, rfl⟩, hF⟩
+  · rintro ⟨⟨f, hf, hr, hc, rfl⟩, hF⟩; exact ⟨f, ⟨hf, hF⟩, hr, hc, rfl⟩
+
+theorem subset_noLicence :
+    p ∈ (subsetReport fd fs F).noLicence ↔ p ∈ (generateOn fd fs).noLicence ∧ p ∈ F := by
+  simp only [subsetReport, mem_noLicence, List.mem_filter, List.contains_eq_mem, decide_eq_true_eq]
+  constructor
+  · rintro ⟨f, ⟨hf, hF⟩, hr, hc, rfl⟩; exact ⟨⟨f, hf, hr, hc, rfl⟩, hF⟩
+  · rintro ⟨⟨f, hf, hr, hc, rfl⟩, hF⟩; exact ⟨f, ⟨hf, hF⟩, hr, hc, rfl⟩
+
+theorem mem_fmtSubset (r : Report) (c : Cat) (a b : Text) :
+    (c, a, b) ∈ fmtSubset r ↔
+      (c = .missing ∧ (a, b) ∈ r.missing) ∨ (c = .readError ∧ a ∈ r.readErrors ∧ b = []) ∨
+      (c = .noLicence ∧ a ∈ r.noLicence ∧ b = []) ∨ (c = .noCopyright ∧ a ∈ r.noCopyright ∧ b = []) := by
+  cases c <;> simp [fmtSubset, one, two] <;> grind
+
+theorem fmtSubset_nil (r : Report) : fmtSubset r = [] ↔ subsetCompliant r = true := by
+  simp [fmtSubset, subsetCompliant, one, two, List.isEmpty_iff]
+  grind
+
+end subset
+
+theorem count_one_same (c : Cat) (l : List Text) : count (one c l) c = l.length := by
+  induction l <;> simp_all [count, one]
+theorem count_two_same (c : Cat) (l : List (Text × Text)) : count (two c l) c = l.length := by
+  induction l <;> simp_all [count, two]
+theorem count_one_ne {c c' : Cat} (h : c' ≠ c) (l : List Text) : count (one c' l) c = 0 := by
+  have : (one c' l).filter (·.1 == c) = [] := by
+    apply List.filter_eq_nil_iff.mpr
+    intro e he
+    simp only [one, List.mem_map] at he
+    obtain ⟨x, _, rfl⟩ := he
+    simpa using h
+  simp [count, this]
+theorem count_two_ne {c c' : Cat} (h : c' ≠ c) (l : List (Text × Text)) : count (two c' l) c = 0 := by
+  have : (two c' l).filter (·.1 == c) = [] := by
+    apply List.filter_eq_nil_iff.mpr
+    intro e he
+    simp only [two, List.mem_map] at he
+    obtain ⟨x, _, rfl⟩ := he
+    simpa using h
+  simp [count, this]
+theorem count_append (a b : List Entry) (c : Cat) : count (a ++ b) c = count a c + count b c := by
+  simp [count]
+
 
 end Model
